@@ -65,6 +65,21 @@ def run(ctx, replay):
             expect="EventsPaired")
     scs = scenarios(ctx)
     F.execute(ctx, scs, "c16", PFX)
+    # one forwarder, overlapping exchanges, a client that stalls in the middle of a large response
+    tp = vlib.os.path.join(ctx.work, "trace-fwdconc.ndjson")
+    cfg = {"rounds": 4 if ctx.quick() else 25}
+    p = vlib.run_harness(ctx, ["stress", "fwd", "-trace", tp, "-seed", str(ctx.seed), "-cfg", vlib.json.dumps(cfg), "-hang", "60"],
+                         allow_fail=True, timeout=900)
+    if p.returncode == 3:
+        ctx.hangs.append({"id": "stress-fwd", "cfg": cfg, "steps": [], "component": "fwd-stress"})
+    elif p.returncode != 0:
+        raise vlib.InfraError("forwarder stress failed: " + p.stderr[-2000:])
+    else:
+        res = vlib.validate_trace(ctx, "Trace_Conc", tp, "fwdconc")
+        for b in res["bad"]:
+            if b["clause"].startswith("C16."):
+                vlib.add_violation(ctx, b["clause"], b["clause"] + "/overlapping", {"id": "stress-fwd", "cfg": cfg, "steps": []}, "fwd-stress",
+                                   detail="driver=fwd (overlapping exchanges through one forwarder)")
     return vlib.finish(ctx, "model_checking",
                        "exchange = backend response (status, header sets, body size, chunking) or failure mode (refused, close / reset "
                        "before the head, header timeout, client cancellation, reset during the body) through a real proxy with a "
